@@ -15,7 +15,7 @@ claims={
  "C17":("GUID conversions decided for all 2^128 values in one symbolic run (Format, both parse directions, byte forms, in-structure layout, equality); UTF-16 encode/decode round trip, wire layout and terminator check for all strings of up to 3 (4 thorough) symbolic code points.","2 C17"),
  "C18":("Boot-order decoding decided for all 65 536 values of every entry symbolically: names are Boot + four upper-case hex digits; a load option built by a reference encoder from symbolic fields (one node of every supported kind) decodes to its fields and the hard-drive / file-path text forms are the UEFI ones.","2 C18"),
  "C19":("Read-only operations on a parsed symbolic image, a database and a signed-update value are called twice in both orders: results are equal on every path, and the executor's write log shows no store into the pre-existing object graph (sufficient condition for race-free concurrent use).","2 C19"),
- "C11":("Variable write/read through the object API against a recording file system: the complete operation trace (path with canonical lower-case GUID for all 2^128 GUIDs, flags, single write of attrs||value) and the attribute-checked read are decided for symbolic names, masks and values.","2 C11"),
+ "C11":("Variable write/read through the object API and the legacy package-level API against a recording file system: the complete operation trace (path with canonical lower-case GUID for all 2^128 GUIDs, flags, single write of attrs||value) and the attribute-checked read are decided for symbolic names, masks and values.","2 C11"),
  "C12":("Inductive step on the real in-memory store (afero.MemMapFs interpreted): after an arbitrary previous value, a plain write of any shorter/equal/longer value is what the next read returns; other variables unchanged.","2 C12"),
  "C15":("Symbolic fault injection in the file-system dependency: every failing or short step of variable write and read surfaces as an error; all fault positions explored by forking.","2 C15"),
  "C05":("SignPKCS7 output equals, byte for byte, a reference RFC 2315/X.690 encoding written in the harness, for every content length in the bound, three content types, symbolic content/certificate/issuer/serial bytes and a symbolic clock (signature and hash as uninterpreted functions).","2 C05"),
@@ -31,7 +31,6 @@ partial={
  "C02":" Header-byte coverage rests on C01 (digest = specification stream) plus the digest comparison shown here; cross-image transplant is the section-byte case seen from the other image.",
  "C04":" DER-level attribute permutation/duplication is addressed by the fix to verify over original bytes but not separately decided.",
  "C05":" The library's own parse/verify of the result is covered by C04's harnesses only in unit form; third-party verifiers are outside.",
- "C11":" The legacy package-level API is not covered.",
  "C15":" Reader failures after parsing (Hash/Verify) cannot occur: the parsed object reads from memory.",
  "C19":" Real goroutine schedules are not explored; Verify is not included.",
  "C03":" Re-parse digest equality, embedded-digest and verify-after-sign parts of the statement are not decided by this check.",
